@@ -105,11 +105,29 @@ class Ctx:
 
     # ---------------------------------------------------------------- Coq side
     def gen_params(self):
-        rc, o, e = sh([sys.executable, os.path.join(VERIF, 'tools', 'gen_params.py'), REPO,
-                       os.path.join(COQ, 'Generated.v')], timeout=120)
+        """Regenerate coq/Generated.v from the working tree.  When a pattern no longer matches (the
+        source changed shape) the obligation is broken; so that the SEARCH for a concrete failing input
+        can still run, the models are then built from the last known-good source (commit recorded in
+        /verif/GOOD_COMMIT, taken from the repository's history) and compared with the working tree."""
+        gp = os.path.join(VERIF, 'tools', 'gen_params.py')
+        out = os.path.join(COQ, 'Generated.v')
+        rc, o, e = sh([sys.executable, gp, REPO, out], timeout=120)
         self.gen_status = o.strip().splitlines()
+        self.gen_broken = [l for l in self.gen_status if l.startswith('FAIL')]
         if rc != 0:
-            self.notes.append('gen_params: pattern failure: ' + (o + e)[-800:])
+            self.notes.append('gen_params: pattern failure: ' + '; '.join(self.gen_broken)[:800])
+            good = os.path.join(VERIF, 'GOOD_COMMIT')
+            if os.path.exists(good):
+                c = open(good).read().strip()
+                d = os.path.join(self.tmp, 'good_src')
+                os.makedirs(d, exist_ok=True)
+                p1 = subprocess.run('git -C %s archive %s src include | tar -x -C %s' % (REPO, c, d), shell=True,
+                                    stdout=subprocess.PIPE, stderr=subprocess.PIPE)
+                if p1.returncode == 0:
+                    rc2, o2, e2 = sh([sys.executable, gp, d, out], timeout=120)
+                    if rc2 == 0:
+                        self.gen_fallback = c
+                        self.notes.append('models built from the last known-good source %s to search for a failing input' % c[:10])
         return rc == 0
 
     def coq(self, propfile=None, timeout=3000):
@@ -166,6 +184,14 @@ class Ctx:
             return False
         self.cov['discharged'] = len(thms)
         self.proof_broken = None
+        if getattr(self, 'gen_broken', None):
+            # the theorems were re-checked against parameters of the last known-good source, not of the
+            # working tree: the tie is broken even though the files compile
+            used = [g.split()[1] for g in self.gen_broken if len(g.split()) > 1]
+            self.cov['discharged'] = 0
+            self.proof_broken = ('coq/Generated.v can no longer be regenerated from the working tree: pattern(s) %s '
+                                 'do not match the source any more (obligations re-checked only against the last known-good source)'
+                                 % ', '.join(used))
         # Print Assumptions parsing
         axioms = {}
         blocks = re.split(r'(?=Closed under the global context|Axioms:)', o)
@@ -211,9 +237,9 @@ class Ctx:
                 self.proof_broken = 'coqchk rejects %s: %s' % (mod, txt[-800:])
                 return False
             tb.append('coqchk (independent checker) accepted %s; its context summary (axioms of every loaded library): %s' % (mod, summary[:600]))
-        return True
+        return not self.proof_broken
 
-    def build_driver(self, group):
+    def build_driver(self, group, plain=False):
         """Extract_<group>.v has been compiled by make (it writes ocaml/gen/<group>.ml);
         compile it with ocaml/<group>_driver.ml into a native executable."""
         gen = os.path.join(VERIF, 'ocaml', 'gen')
@@ -237,8 +263,9 @@ class Ctx:
             raise ModelBuildError('extraction of %s failed: %s' % (group, (o + e)[-1500:]))
         drv = os.path.join(VERIF, 'ocaml', group + '_driver.ml')
         with open(os.path.join(d, group + '_driver.ml'), 'w') as fh:
-            fh.write('open %s\n' % group)
-            fh.write(open(os.path.join(VERIF, 'ocaml', 'conv.ml.inc')).read())
+            if not plain:       # plain: no `open <Group>` / shared prelude (the extracted module shadows `string`)
+                fh.write('open %s\n' % group)
+                fh.write(open(os.path.join(VERIF, 'ocaml', 'conv.ml.inc')).read())
             fh.write('\n# 1 "%s"\n' % drv)
             fh.write(open(drv).read())
         exe = os.path.join(d, group + '_driver')
@@ -249,14 +276,58 @@ class Ctx:
         return exe
 
     # ---------------------------------------------------------------- running cases
-    def run_lines(self, exe, cases, timeout=600, args=(), env=None):
-        """Feed one case per line on stdin, expect one output line per case."""
-        data = '\n'.join(cases) + '\n'
-        rc, o, e = sh([exe] + list(args), input=data, timeout=timeout, env=env)
-        lines = o.split('\n')
-        if lines and lines[-1] == '':
-            lines.pop()
-        return rc, lines, e
+    def run_lines(self, exe, cases, timeout=600, args=(), env=None, shard=200):
+        """Feed one case per line on stdin, expect one output line per case.  The cases are
+        split into shards that run concurrently (every harness/driver treats its cases
+        independently).  A shard that does not finish in time has stalled on the first case
+        without an output line: that case is reported as 'HARNESS-STALL' (an observation of
+        the implementation, like CRASH/TIMEOUT of a forked case) and the rest of the shard is
+        re-run, so the result always has exactly one line per case."""
+        from concurrent.futures import ThreadPoolExecutor
+        env = dict(env or os.environ)
+        env.setdefault('H_TIMEOUT', '5' if self.tier == 'quick' else '10')
+        cases = list(cases)
+        if not cases:
+            return 0, [], ''
+        nsh = max(1, min(NCPU, (len(cases) + shard - 1) // shard))
+        size = (len(cases) + nsh - 1) // nsh
+        chunks = [cases[i:i + size] for i in range(0, len(cases), size)]
+        per_case = float(env['H_TIMEOUT'])
+
+        def run_chunk(chunk):
+            out, errs, rcs = [], [], 0
+            rest = chunk
+            stalls = 0
+            while rest:
+                budget = min(timeout, 30 + per_case * 3 + 0.05 * len(rest))
+                rc, o, e = sh([exe] + list(args), input='\n'.join(rest) + '\n', timeout=budget, env=env)
+                lines = o.split('\n')
+                if lines and lines[-1] == '':
+                    lines.pop()
+                lines = lines[:len(rest)]
+                out += lines
+                errs.append(e[-2000:] if e else '')
+                if len(lines) >= len(rest):
+                    rcs = rc
+                    break
+                # stalled (or died) on case number len(lines) of `rest`
+                out.append('HARNESS-STALL' if rc == -9 else 'HARNESS-DIED(rc=%s)' % rc)
+                rest = rest[len(lines) + 1:]
+                stalls += 1
+                if stalls > 20:          # give up on this shard: mark the remainder
+                    out += ['HARNESS-STALL'] * len(rest)
+                    break
+            return rcs, out, ''.join(errs)
+
+        if len(chunks) == 1:
+            rc, lines, err = run_chunk(chunks[0])
+            return rc, lines, err
+        with ThreadPoolExecutor(max_workers=len(chunks)) as ex:
+            res = list(ex.map(run_chunk, chunks))
+        lines, errs, rc = [], [], 0
+        for r, l, e in res:
+            lines += l; errs.append(e); rc = rc or r
+        return rc, lines, ''.join(errs)
 
     def count_case(self, key, nontrivial=True):
         self.cov['evaluations'] += 1
